@@ -108,6 +108,23 @@ def call(kind, ds, ss, nm, unit, cand, algs=None, warm=None):
                 return {"v": ["score", core.to_units(v, unit)[0], 1 if isinstance(d, str) else 0]}
             except Exception as ex:
                 return {"v": ["refused", type(ex).__name__]}
+        if kind == "handbuilt_full":
+            # a consensus built by hand over the whole universe, WITHOUT feature dictionary: its score is computed on
+            # demand and read twice
+            c = _impl["Consensus"]([cand], dataset=ds, scoring_scheme=ss)
+            a = c.kemeny_score
+            d = c.description()
+            b = c.kemeny_score
+            return {"v": [core.to_units(a, unit)[0], core.to_units(b, unit)[0], 1 if isinstance(d, str) else 0]}
+        if kind == "mut_remove_element":
+            # in-place pre-processing between two runs: the first element of the universe leaves (refused when it is
+            # the only one)
+            u = sorted(ds.universe, key=nm.elem)
+            ds.remove_elements({u[0]})
+            return {"v": "done"}
+        if kind == "mut_remove_rate":
+            ds.remove_elements_rate_presence_lower_than(0.5)
+            return {"v": "done"}
         if kind == "read_score":
             c = _impl["algs"]["copeland"]().compute_consensus_rankings(ds, ss, True)
             a = c.kemeny_score
@@ -142,8 +159,10 @@ def run_history(case):
     rec = dict(case)
     rec.update(out="", snaps=[], shared=[], fresh=[])
 
+    cur = {"D": D}
+
     def build():
-        ds = _impl["Dataset"].from_raw_list(nm.raw_dataset(D), name="shared")
+        ds = _impl["Dataset"].from_raw_list(nm.raw_dataset(cur["D"]), name="shared")
         ss = _impl["SS"](core.scheme_float(B, T, unit))
         u = sorted(ds.universe, key=nm.elem)
         cand = _impl["Ranking"]([{e} for e in u])
@@ -172,6 +191,13 @@ def run_history(case):
         random.seed(case["seed"] + k)
         rec["shared"].append(call(kind, ds, ss, nm, unit, cand, algs, warm))
         rec["snaps"].append(snapshot(ds, ss, nm, ids))
+        if kind.startswith("mut_"):
+            # the inputs are now what the mutator left: the fresh copies are rebuilt from the CURRENT rankings, and
+            # the candidate scored by the later calls ranks the current universe
+            cur["D"] = [[sorted(nm.elem(e) for e in b) for b in r] for r in ds.rankings]
+            cand = _impl["Ranking"]([{e} for e in sorted(ds.universe, key=nm.elem)])
+            rec["fresh"].append({"v": "done"})
+            continue
         fds, fss, fcand = build()
         random.seed(case["seed"] + k)
         rec["fresh"].append(call(kind, fds, fss, nm, unit, fcand))
